@@ -43,6 +43,13 @@ func (f *Fam) genInit(r *rand.Rand) string {
 		}
 		sb.WriteString(hx(Keys[i].Addr))
 	}
+	sb.WriteString(" ksh=") // the shape of every key: p plain, m(..) multisignature over its components
+	for i, k := range Keys {
+		if i > 0 {
+			sb.WriteByte(';')
+		}
+		sb.WriteString(k.Shape())
+	}
 	for i := NKeys; i < NAll; i++ { // the multisignature accounts
 		fmt.Fprintf(&sb, " acc %s %d", hx(Keys[i].Addr), pick(r, 0, 1000000, 100000000, 1000000000))
 	}
@@ -359,7 +366,7 @@ func (f *Fam) genTx1(r *rand.Rand, s *Snapshot) string {
 	case x < 85:
 		kind = "changeparam"
 		keys := []string{"pos/MaxValidators", "pos/SignedBlocksWindow", "pos/StakeMinimum", "pos/UnstakingTime", "auth/MaxMemoCharacters", "gov/daoOwner", "pos/Nope", "nosuch/Key", "pos/MinSignedPerWindow", "gov/acl", "gov/acl",
-			"pos/DowntimeJailDuration", "pos/MaxEvidenceAge", "pos/SlashFractionDoubleSign", "pos/SlashFractionDowntime", "gov/upgrade"}
+			"pos/DowntimeJailDuration", "pos/MaxEvidenceAge", "pos/SlashFractionDoubleSign", "pos/SlashFractionDowntime", "gov/upgrade", "auth/TxSigLimit"}
 		key := keys[r.Intn(len(keys))]
 		// the sender is mostly the address the access-control list names for this key (ownership is handed over per key)
 		var curACL govTypes.ACL
@@ -401,6 +408,8 @@ func (f *Fam) genTx1(r *rand.Rand, s *Snapshot) string {
 			}
 			bz, _ := govTypes.ModuleCdc.MarshalJSON(na)
 			val = string(bz)
+		case "auth/TxSigLimit": // the two multisignature keys count 3 and 5 keys
+			val = fmt.Sprintf(`"%d"`, pick(r, 0, 1, 2, 3, 4, 5, 6, 7))
 		case "pos/DowntimeJailDuration":
 			val = fmt.Sprintf(`"%d"`, pick(r, 1, 60*sec, 3600*sec))
 		case "pos/MaxEvidenceAge":
